@@ -47,6 +47,10 @@ CHECKS = {
          "pinned-schedule enumeration on the real runners through gates (verif named points, callbacks, tracer steps, a child gate before setsid): one deterministic execution per cancellation / Destroy instant; shares the C10 model's gate machinery",
          "Container (sync before and after exec, program that never ends / exits 7): cancel before the call, inside the callback, with the host held at send-pre/post(execve), recv(pid), send-pre/post(ok), select, with the result held in flight, with the child ended but unreported, with the container held at started / select / send-pre(result). Tracer: cancel before Trace, with the child held before setsid (with and without callback), inside the callback, at every tracer step (each Debug call). Namespace runner: before Run, inside the callback, while the program provably runs. Destroy: while Execve (both programs) / Open / Ping is in flight, with a host pump or the caller held at each host point, with the container held at dispatch / started / select / reply withheld / after a cancellation's kill was taken. Oracle: the call returns within 10 s with TLE or the genuine verdict, never Runner Error or Disallowed Syscall; no process of the run survives; the environment is usable after a cancel; after Destroy the in-flight call has returned, Destroy returned and the init is gone.",
          "Instants strictly between two consecutive gates are not pinned (a continuous sweep would be sampling). Which instant a Destroy lands on while a side is held relies on a 30 ms pause (it affects which instant is exercised, not the oracle)."),
+ "C12": ("exploration",
+         "explicit-state search over operation histories on live runners; state = residue vector (descriptor classes, children, goroutines of the host process; descriptors and children of the container init; live program processes), compared with the baseline after every operation",
+         "Operations: container runs of process trees (plain, signal-ignoring, double-forked daemon, setsid, setpgid, parent-outliving children, depth up to 3) ending by exit / fatal signal / cancellation with sync before and after exec; callbacks that fail, also after the program has built its tree (sync after exec); launches failing before and after the sync point; open ok / mixed / empty, delete, symlink, reset, ping; build+destroy of a second environment; ptrace and namespace runs of trees with the same endings; failing launches of both. Every single operation is run from the baseline state on a fresh environment, three long chains run all operations in different orders on one environment (thorough: every operation followed by each of eight representatives). After each operation the vector must return to the baseline (polled up to the horizon); every history ends with a Destroy that must return and reap the init.",
+         "Because every operation returns to the baseline state, longer histories add no new states (the frontier closes at depth 1); chains and pairs are run anyway. Files left in the container's tmpfs are state, not residue (C13)."),
  "C15": ("exploration",
          "bounded-exhaustive enumeration of hostile syscall arguments (one operation per run) and of SIGKILL instants at every tracer step, on a real tracer and tracee; oracle: the result is a verdict about the program, never Runner Error, and the run returns",
          "Every traced path syscall (25) x pointer kind for every path argument {NULL, unmapped, kernel half, odd, short string, 4095/4096/4097/8192 bytes without NUL, string ending exactly at / crossing into a PROT_NONE page} x dirfd encoding {AT_FDCWD, 64-bit garbage, (thorough) -1, closed, zero-extended AT_FDCWD} x {soft-ban-all, allow-all policy}; syscall numbers unknown / negative / x32 / above 2^32; unreadable, short and NULL open_how; and a fork+thread program in which the main process or the most recently reported task is SIGKILLed at the k-th tracer step for every k (each Debug call of the tracer loop, including 'before PTRACE_SETOPTIONS' and 'between trap and skip').",
